@@ -11,15 +11,24 @@ FLT_PARTS = ["f32", "f64"]
 FLOAT_COVER = {"none@gcc11", "SSE2@gcc11", "SSE4_1@gcc11", "AVX2+FMA@gcc11", "F@gcc11", "VL+BW+DQ@gcc11", "FULL@clang11"}
 
 
-def exh16_flags(cfg, tier, part=None):
-    """thorough tier: the exhaustive 2^32-pair passes of the 16-bit family run only for the arm-cover configurations"""
+def exh_flags(cfg, tier, part=None):
+    """The exhaustive 2^32 passes (all pairs of a 16-bit type, all values of a 32-bit or float type) are the expensive part of every value check.
+    quick: only the float passes, and only for the configurations that select distinct float arms (-DVX_EXH_QUICK);
+    thorough: only for the arm-cover configurations (-DVX_EXH16 / -DVX_EXH32); every other configuration class explores the lattice domains."""
+    if tier == "quick":
+        return ["-DVX_EXH_QUICK=1"] if cfg.name in FLOAT_COVER else []
     cover = set(C.Config(x).name for x in C.ARM_COVER) | {"FULL@clang11"}
-    return ["-DVX_EXH16=1"] if (tier == "thorough" and part == "16" and cfg.name in cover) else []
+    if cfg.name not in cover:
+        return []
+    if part == "16":
+        return ["-DVX_EXH16=1"]
+    if part in ("32", "f32"):
+        return ["-DVX_EXH32=1"]
+    return []
 
 
-def exh_quick_flags(cfg, tier):
-    """quick tier: the exhaustive 2^32 float passes run only for the configurations that select distinct float arms"""
-    return ["-DVX_EXH_QUICK=1"] if (tier == "quick" and cfg.name in FLOAT_COVER) else []
+exh16_flags = exh_flags
+exh_quick_flags = exh_flags
 
 
 def convert_pairs_flags(cfg, tier, part=None):
@@ -41,18 +50,19 @@ def convert_pairs_flags(cfg, tier, part=None):
 TUS = {
     "t_arith": {"sources": ["t_arith.cpp"], "parts": INT_PARTS, "cfg_flags": exh16_flags, "shards": {"thorough": {"16": 8}}},
     "t_cmp": {"sources": ["t_cmp.cpp"], "parts": INT_PARTS + FLT_PARTS, "cfg_flags": exh16_flags, "shards": {"thorough": {"16": 8}}},
-    "t_bit": {"sources": ["t_bit.cpp"], "parts": INT_PARTS, "shards": {"thorough": {"32": 8}}},
+    "t_bit": {"sources": ["t_bit.cpp"], "parts": INT_PARTS, "cfg_flags": exh_flags, "shards": {"thorough": {"32": 8}}},
     "t_bitwise": {"sources": ["t_bitwise.cpp"], "parts": INT_PARTS, "cfg_flags": exh16_flags, "shards": {"thorough": {"16": 6}}},
     "t_shiftc": {"sources": ["t_shiftc.cpp"], "parts": INT_PARTS},
     "t_div": {"sources": ["t_div.cpp"], "parts": INT_PARTS, "cfg_flags": exh16_flags, "shards": {"thorough": {"16": 8}}},
-    "t_farith": {"sources": ["t_farith.cpp"], "parts": FLT_PARTS, "shards": {"thorough": {"f32": 8}}},
+    "t_farith": {"sources": ["t_farith.cpp"], "parts": FLT_PARTS, "cfg_flags": exh_flags, "shards": {"thorough": {"f32": 8}}},
     "t_fround": {"sources": ["t_fround.cpp"], "parts": FLT_PARTS, "cfg_flags": exh_quick_flags, "shards": {"quick": {"f32": 6}, "thorough": {"f32": 12, "f64": 2}}},
-    "t_fmanip": {"sources": ["t_fmanip.cpp"], "parts": FLT_PARTS, "shards": {"thorough": {"f32": 5}}},
+    "t_fmanip": {"sources": ["t_fmanip.cpp"], "parts": FLT_PARTS, "cfg_flags": exh_flags, "shards": {"thorough": {"f32": 5}}},
     "t_fclass": {"sources": ["t_fclass.cpp"], "parts": FLT_PARTS, "cfg_flags": exh_quick_flags, "shards": {"quick": {"f32": 6}, "thorough": {"f32": 6}}},
     "t_mask": {"sources": ["t_mask.cpp"], "parts": INT_PARTS + FLT_PARTS},
     "t_mem": {"sources": ["t_mem.cpp"], "parts": INT_PARTS + FLT_PARTS},
     "t_memfp": {"sources": ["t_mem.cpp"], "parts": INT_PARTS + FLT_PARTS, "flags": ["-DVX_FOOTPRINT=1"]},
-    "t_denom": {"sources": ["t_denom.cpp"], "parts": INT_PARTS},
+    # scalar Denominator<T> uses nothing of the vector headers: its configuration classes are those of the scalar headers alone
+    "t_denom": {"sources": ["t_denom.cpp"], "parts": INT_PARTS, "family": "scalar"},
     "t_denomv": {"sources": ["t_denom.cpp"], "parts": INT_PARTS, "flags": ["-DVX_DENOM_VECTOR=1"]},
     "t_scalar": {"sources": ["t_scalar.cpp"], "parts": INT_PARTS + FLT_PARTS, "cfg_flags": exh16_flags, "shards": {"thorough": {"16": 6, "32": 8, "f32": 4}}},
     "t_convert": {"sources": ["t_convert.cpp"], "parts": INT_PARTS + FLT_PARTS, "cfg_flags": convert_pairs_flags},
